@@ -31,13 +31,17 @@ theorem inode_roundtrip (bs : Nat) (i : Inode) (rest : Bytes) (h : WfInode bs i)
     decInode bs (encInode i ++ rest) = .ok (i, rest) :=
   decInode_encInode bs i rest h
 
-example : WfInode 1048576 (.fileExt ⟨0o100644, 3, 65535, 0xFFFFFFFF, 7⟩ (2 ^ 32) (2 ^ 32 + 5) 4096 2 0xFFFFFFFF 0xFFFFFFFF 5
+theorem exWfFile : WfInode 1048576 (.fileExt ⟨0o100644, 3, 65535, 0xFFFFFFFF, 7⟩ (2 ^ 32) (2 ^ 32 + 5) 4096 2 0xFFFFFFFF 0xFFFFFFFF 5
     (List.replicate 4097 0)) := by
   refine ⟨by decide, by decide, by decide, by decide, by decide, by decide, by decide, by decide, ?_, ?_⟩
   · rw [List.length_replicate]; decide
   · intro w hw; rw [List.eq_of_mem_replicate hw]; decide
-example : WfInode 4096 (.dirExt ⟨0o40755, 0, 0, 1, 9⟩ 3 70000 8194 1 2 100 NONE32 [⟨0, 0, [0x61]⟩, ⟨8000, 8194, [0xff, 0x62]⟩]) := by decide
-example : WfInode 131072 (.slink ⟨0o120777, 1, 2, 3, 4⟩ 1 5 [0x2f, 0x80, 0xff, 0x20, 0x22]) := by decide
+theorem exWfDir : WfInode 4096 (.dirExt ⟨0o40755, 0, 0, 1, 9⟩ 3 70000 8194 1 2 100 NONE32 [⟨0, 0, [0x61]⟩, ⟨8000, 8194, [0xff, 0x62]⟩]) := by decide
+theorem exWfSlink : WfInode 131072 (.slink ⟨0o120777, 1, 2, 3, 4⟩ 1 5 [0x2f, 0x80, 0xff, 0x20, 0x22]) := by decide
+-- the theorem applied: a 4 GiB+ file inode with 4097 block words, an extended directory with an index, a symlink
+example := inode_roundtrip _ _ [0xAA] exWfFile
+example := inode_roundtrip _ _ [] exWfDir
+example := inode_roundtrip _ _ [1, 2] exWfSlink
 
 /-- `serialize_tree_node` **establishes** the well-formedness the round trip needs: from an inode that is well
 formed (as produced by the directory writer / block processor / `tree_node_to_inode`), node attributes within their
@@ -49,8 +53,10 @@ theorem serialize_establishes_wf (bs : Nat) (isDir isReg : Bool) (a : NodeAttr) 
     WfInode bs (setIds uid gid (serializeInode isDir isReg a i0)) :=
   serialize_wf' bs isDir isReg a uid gid i0 h0 hm ht hn hl hx hu hg
 
-example : WfBody 4096 (.file ⟨0, 0, 0, 0, 0⟩ 96 NONE32 NONE32 5000 [4096, 904]) ∧
-    (⟨0o100600, 17, 12, 3, 0⟩ : NodeAttr).mode / 4096 * 4096 = (Inode.file ⟨0, 0, 0, 0, 0⟩ 96 NONE32 NONE32 5000 [4096, 904]).typeBits := by decide
+-- the theorem applied: a two-block file with three links and xattr index 0 (so it is promoted), ids 65535 and 0
+example := serialize_establishes_wf 4096 false true ⟨0o100600, 17, 12, 3, 0⟩ 65535 0
+  (.file ⟨0, 0, 0, 0, 0⟩ 96 NONE32 NONE32 5000 [4096, 904]) (by decide) ⟨by decide, by decide⟩ (by decide) (by decide)
+  (by decide) (by decide) (by decide) (by decide)
 
 /-- **basic ↔ extended are inverse where both apply** (`sqfs_inode_make_extended` repaired, see `Witness`):
 (1) basic → extended → basic is the identity on every well-formed basic inode; (2) extended → basic → extended is the
@@ -65,7 +71,10 @@ theorem make_extended_basic_inverse :
     ∧ (∀ i : Inode, (makeExtended i).view = i.view) ∧ (∀ i : Inode, 1 ≤ i.nlink → (makeBasic i).view = i.view) :=
   ⟨makeBasic_makeExtended, makeExtended_makeBasic, makeExtended_view, makeBasic_view⟩
 
-example : (Inode.ipc ⟨0o10644, 0, 0, 0, 1⟩ false 1).isExt = false ∧ WfInode 4096 (Inode.ipc ⟨0o10644, 0, 0, 0, 1⟩ false 1) := by decide
+-- (1) applied to a basic fifo, (2) applied to an extended one-link file without xattrs
+example := make_extended_basic_inverse.1 4096 (Inode.ipc ⟨0o10644, 0, 0, 0, 1⟩ false 1) (by decide) (by decide)
+example := make_extended_basic_inverse.2.1 (.fileExt ⟨0o100644, 1, 2, 3, 4⟩ 96 100 0 1 NONE32 NONE32 NONE32 [100])
+  (by decide) (by decide) (fun _ _ _ _ _ _ _ _ _ h => by cases h) (fun _ _ _ _ _ _ _ _ _ h => by cases h; rfl)
 
 /-- **The basic/extended selection is safe and minimal.**
 * regular files: the inode written carries exactly the wanted link count, xattr index, mode, time stamp, inode number
@@ -93,6 +102,12 @@ theorem selection_minimal_and_safe (a : NodeAttr) :
 example : (serializeInode false true ⟨0o100644, 9, 4, 2, NONE32⟩
       (.fileExt ⟨0, 0, 0, 0, 0⟩ 96 (5 * 2 ^ 30) 4096 1 NONE32 NONE32 NONE32 [])).view
     = ⟨sIFREG, ⟨0o100644, 0, 0, 9, 4⟩, 2, NONE32, [96, 5 * 2 ^ 30, 4096, NONE32, NONE32], [], []⟩ := by decide
+-- clause 1 applied to that file, and to a basic one (where the 32-bit premise is a real obligation)
+example := (selection_minimal_and_safe ⟨0o100644, 9, 4, 2, NONE32⟩).1
+  (.fileExt ⟨0, 0, 0, 0, 0⟩ 96 (5 * 2 ^ 30) 4096 1 NONE32 NONE32 NONE32 []) (by decide) (by decide) (fun _ _ _ _ _ _ h => by cases h)
+example := (selection_minimal_and_safe ⟨0o100644, 9, 4, 1, NONE32⟩).1
+  (.file ⟨0, 0, 0, 0, 0⟩ 96 NONE32 NONE32 5000 [4096, 904]) (by decide) (by decide)
+  (fun _ _ _ _ _ _ h => by cases h; exact ⟨by decide, by decide⟩)
 
 /-! ## directory listings -/
 
@@ -108,8 +123,9 @@ theorem dir_listing_roundtrip (c blk off : Nat) (ents : List DEnt) (rest : Bytes
       = .ok (ents.map DEnt.toEntry) :=
   readListing_encListing c blk off ents rest hwf
 
-example : ∀ e ∈ [(⟨(8194 <<< 16) ||| 40, 70000, 2, [0x61, 0xff]⟩ : Sqfs.DirWriter.DEnt), ⟨32, 5, 1, [0x62]⟩, ⟨64, 40000, 7, [0x63]⟩], WfDEnt e := by
-  decide
+-- the theorem applied: three entries that need three headers (other inode block; inode-number delta > 32767)
+example := dir_listing_roundtrip 8194 0 8000
+  [(⟨(8194 <<< 16) ||| 40, 70000, 2, [0x61, 0xff]⟩ : Sqfs.DirWriter.DEnt), ⟨32, 5, 1, [0x62]⟩, ⟨64, 40000, 7, [0x63]⟩] [0xEE] (by decide)
 
 open Sqfs.DirWriter (DEnt Run dirEnd encodeRun runBytes advance) in
 /-- **The directory index points at headers**: every index entry built by `sqfs_dir_writer_create_inode` (one per
@@ -124,6 +140,10 @@ theorem dir_index_points_at_headers (c blk off : Nat) (ents : List DEnt) (k : Na
 
 example : (Sqfs.DirWriter.dirEnd 8194 0 8000 [⟨0, 1, 2, [0x61]⟩, ⟨8194 <<< 16, 2, 2, [0x62]⟩]).map
       (fun r => (r.ents.length, r.startBlock, r.inodeNumber, r.index, r.block)) = [(1, 0, 1, 0, 0), (1, 8194, 2, 21, 0)] := by decide
+-- the theorem applied to the second run of that listing (the hypothesis `h` is met: there is a run 1)
+example (r : Sqfs.DirWriter.Run) (h : (Sqfs.DirWriter.dirEnd 8194 0 8000 [⟨0, 1, 2, [0x61]⟩, ⟨8194 <<< 16, 2, 2, [0x62]⟩])[1]? = some r) :=
+  dir_index_points_at_headers 8194 0 8000 _ 1 r (by decide) h
+example : ((Sqfs.DirWriter.dirEnd 8194 0 8000 [⟨0, 1, 2, [0x61]⟩, ⟨8194 <<< 16, 2, 2, [0x62]⟩])[1]?).isSome = true := by decide
 
 /-! ## metadata streams -/
 
@@ -133,7 +153,7 @@ theorem meta_stream_roundtrip {cmp : Codec} {unc : Unc} (hc : CodecOk cmp unc) (
     metaReadAll unc (encBlocks (Sqfs.MetaWriter.run cmp chunks).out) = .ok chunks.flatten :=
   metaReadAll_run hc chunks
 
-example : CodecOk (fun x => if x = [1, 1, 1, 1] then some [9] else none) (fun y => if y = [9] then some [1, 1, 1, 1] else none) := by
+theorem exCodecOk : CodecOk (fun x => if x = [1, 1, 1, 1] then some [9] else none) (fun y => if y = [9] then some [1, 1, 1, 1] else none) := by
   constructor
   · intro x c h
     by_cases hx : x = [1, 1, 1, 1]
@@ -143,6 +163,12 @@ example : CodecOk (fun x => if x = [1, 1, 1, 1] then some [9] else none) (fun y 
     by_cases hx : x = [1, 1, 1, 1]
     · simp only [hx, if_true, Option.some.injEq] at h; subst h; simp [hx]
     · simp [hx] at h
+
+theorem codecOk_none : CodecOk (fun _ => none) (fun _ => none) := ⟨fun _ _ h => (by cases h), fun _ _ h _ => (by cases h)⟩
+
+-- the theorem applied: a compressing codec meeting the contract, and the never-shrinking one
+example := meta_stream_roundtrip exCodecOk [[1, 1, 1, 1], [2, 3]]
+example := meta_stream_roundtrip codecOk_none [List.replicate 8000 7, List.replicate 400 8]
 
 /-- **A reference produced by the writer reads back the bytes written there.**  For any run of appends and any codec
 pair meeting the contract: (1) the position `sqfs_meta_writer_get_position` reports after the first `k` appends is the
@@ -163,6 +189,8 @@ theorem meta_ref_roundtrip {cmp : Codec} {unc : Unc} (hc : CodecOk cmp unc) (chu
   have := metaReadAt_refOfPos hc _ hok (run_full cmp chunks) p n (by rw [hraw]; exact hp) (by rw [hraw]; exact hn)
   rw [hraw] at this
   exact this
+
+example := meta_ref_roundtrip exCodecOk [[1, 1, 1, 1], [2, 3]]
 
 /-! ## tables and super block -/
 
@@ -197,6 +225,11 @@ theorem export_table_roundtrip {cmp : Codec} {unc : Unc} (hc : CodecOk cmp unc) 
 
 example : (writeTableAt (fun _ => none) [0xEE, 0xEE] [1, 2, 3]).1 = [0xEE, 0xEE, 3, 0x80, 1, 2, 3, 2, 0, 0, 0, 0, 0, 0, 0]
     ∧ (writeTableAt (fun _ => none) [0xEE, 0xEE] [1, 2, 3]).2 = 7 := by decide
+-- the four table theorems applied (every hypothesis discharged)
+example := table_roundtrip codecOk_none [0xEE, 0xEE] [1, 2, 3] (by decide)
+example := id_table_roundtrip codecOk_none [0xEE] [0, 1000, 4294967295] (by decide) (by decide) (by decide)
+example := frag_table_roundtrip codecOk_none [] [(96, 0x1000123), (5000, 77)] (by decide) (by decide)
+example := export_table_roundtrip codecOk_none [0xEE] [0x20, (8194 <<< 16) ||| 40] (by decide) (by decide)
 
 open Sqfs.Writer in
 /-- **Super block round trip**: `sqfs_super_read` returns the super block `sqfs_super_write` stored, for every super
@@ -227,7 +260,8 @@ def exampleSuper : Sqfs.Writer.Super where
   fragStart := 2000
   exportStart := 2500
 
-example : SuperValid exampleSuper := ⟨by decide, by decide, by decide, by decide, by decide, by decide, by decide, by decide⟩
+theorem exSuperValid : SuperValid exampleSuper := ⟨by decide, by decide, by decide, by decide, by decide, by decide, by decide, by decide⟩
+example := super_roundtrip exampleSuper [0xEE] exSuperValid
 
 /-! ## extended attributes -/
 
@@ -287,8 +321,6 @@ def exampleSets : List (List (Bytes × Bytes)) :=
   let k1 : List UInt8 := prefixUser ++ [0x61]; let k2 : List UInt8 := prefixTrusted ++ [0x62]
   let v : List UInt8 := [1, 2, 3, 4, 5, 6, 7, 8, 9]
   [[(k1, v)], [], [(k2, v), (k1, []), (k2, v)], [(k1, [5]), (k1, v)]]
-
-theorem codecOk_none : CodecOk (fun _ => none) (fun _ => none) := ⟨fun _ _ h => (by cases h), fun _ _ h _ => (by cases h)⟩
 
 -- `xattr_input_roundtrip` instantiated: every hypothesis discharged for `exampleSets`, uncompressed metadata and
 -- the real reference arithmetic; the conclusion, evaluated, is the four sets read back (the third one with its
@@ -370,6 +402,7 @@ def exampleXWriter : XWriter where
 -- sorted, found equal to block 0, stored once: index 0, the pair array shrinks back
 example : (endSet exampleXWriter).2 = 0 ∧ (endSet exampleXWriter).1.pairs = [(0, 0), (1, 1)]
     ∧ (endSet exampleXWriter).1.blocks = [(0, 2)] := by decide
+example := xattr_record_index exampleXWriter (by decide) (by decide)
 
 /-- **`locations[]` of the xattr id table: every store in range, and the table complete.**  (1) In the (repaired)
 `write_id_table` every store has an index below the number of slots `alloc_location_table` provided — for every number
@@ -399,6 +432,11 @@ theorem file_content_roundtrip (P : Params) (hB : 0 < P.B) (hc : P.codec.Ok) (fi
     (h : i < files.length) :
     ∃ r, (specPack P files).files[i]? = some r ∧ readFile P (specPack P files) r = files[i].data :=
   readFile_specPack P hB hc files i h
+
+-- the theorem applied: block size 4, a file with a hole block and a tail, a duplicate of it, a never-shrinking codec
+example := file_content_roundtrip ⟨4, 96, ⟨fun _ => none, id⟩, fun _ => 0⟩ (by decide)
+  ⟨fun _ _ h => (by cases h), fun _ _ h => (by cases h)⟩
+  [⟨{}, [1, 2, 3, 4, 0, 0, 0, 0, 5]⟩, ⟨{}, [1, 2, 3, 4, 0, 0, 0, 0, 5]⟩] 1 (by decide)
 
 /-! ## refusing what the format cannot represent -/
 
